@@ -250,6 +250,8 @@ typedef struct {
 static sim_cfg_t sim_cfg;
 
 static vh_rng_t sim_rng;   /* scheduler / network randomness */
+static vh_rng_t seg_rng;   /* transport chopping only (so that A/B runs draw the same sim_rng sequence) */
+static int      sim_no_subms_jitter; /* fixed server delays (A/B differential) */
 static int      sim_destroyed; /* channel destroyed */
 static int      sim_in_destroy;
 
@@ -747,7 +749,7 @@ static ares_ssize_t vs_sendto(ares_socket_t s, const void *buf, size_t len, int 
     errno = EWOULDBLOCK;
     return -1;
   }
-  if (sim_cfg.wblock_permille && (int)vh_below(&sim_rng, 1000) < sim_cfg.wblock_permille) {
+  if (sim_cfg.wblock_permille && (int)vh_below(&seg_rng, 1000) < sim_cfg.wblock_permille) {
     sim_note("tcp_write_wouldblock");
     errno = EWOULDBLOCK;
     return -1;
@@ -755,7 +757,7 @@ static ares_ssize_t vs_sendto(ares_socket_t s, const void *buf, size_t len, int 
   {
     size_t n = len;
     if (sim_cfg.tcp_write_mode == 1 && len > 1) {
-      n = 1 + vh_below(&sim_rng, (uint32_t)len);
+      n = 1 + vh_below(&seg_rng, (uint32_t)len);
     } else if (sim_cfg.tcp_write_mode == 2) {
       n = 1;
     }
@@ -842,7 +844,7 @@ static ares_ssize_t vs_recvfrom(ares_socket_t s, void *buf, size_t len, int flag
     size_t avail = p->len - p->off;
     size_t n     = avail < len ? avail : len;
     if (sim_cfg.tcp_seg_mode == 1 && n > 1) {
-      n = 1 + vh_below(&sim_rng, (uint32_t)n);
+      n = 1 + vh_below(&seg_rng, (uint32_t)n);
     } else if (sim_cfg.tcp_seg_mode == 2) {
       n = 1;
     }
